@@ -32,6 +32,13 @@ def site(repo: Repo, node) -> str:
         m = repo.module_of(node)
         return f"{m.rel}:{getattr(node, 'lineno', 0)}"
     except Exception:
+        n = node
+        for _ in range(200):
+            if n is None:
+                break
+            if getattr(n, "_rel", None):
+                return f"{n._rel}:{getattr(node, 'lineno', 0)}"
+            n = getattr(n, "_parent", None)
         return f"?:{getattr(node, 'lineno', 0)}"
 
 
@@ -89,7 +96,16 @@ def views(repo: Repo, ci, fn, rel=None):
     from ..pattern import norm
     k = (id(repo), id(fn))
     if k not in _VCACHE:
-        _VCACHE[k] = Views(fn, repo, ci, rel or (repo.module_of(fn).rel if ci is None else None), normaliser=norm)
+        r = rel or (ci.module.rel if ci is not None else None)
+        if r is None:
+            try:
+                r = repo.module_of(fn).rel
+            except Exception:
+                r = None
+        V = Views(fn, repo, ci, r, normaliser=norm)
+        for v in V.views:
+            v._rel = r            # lets site() name the file of a node of a (cloned) view
+        _VCACHE[k] = V
     return _VCACHE[k]
 
 
